@@ -4,7 +4,7 @@ import TextxVerif.Rrel
 op:
   {"op":"find","parent":[p|null…],"name":[s|null…],"conf":[[T…]…],
    "attrs":[[[attr,[tgt…]]…]…],"unres":[[obj,attr]…],"extra":[…],
-   "top":[PATH…],"o":n,"ns":[s…],"cls":s|null,"fuel":n}
+   "top":[PATH…],"o":n,"ns":[s…] | "text":s,"sep":s,"cls":s|null,"fuel":n}
      → {"res":"found","obj":n,"path":[…],"proxy":[…]} | {"res":"none"} | {"res":"postponed"} | {"err":"fuel"}
   PATH = {"k":"cat","es":[ELEM…]}
   ELEM = {"k":"nav","i","name","mode":"c"|"t"|"f","fixed"} | {"k":"parent","i","type"} | {"k":"dots","i","n"}
@@ -92,7 +92,13 @@ def handle (j : Json) : Json :=
       let extra ← getNatList? j "extra"
       let top ← (← getArr? j "top").toList.mapM parsePath
       let o ← getNat? j "o"
-      let ns ← getStrList? j "ns"
+      let ns ← match getStrList? j "ns" with
+        | some ns => some ns
+        | none => do
+          let t ← getStr? j "text"
+          let sep ← getStr? j "sep"
+          guard (!sep.isEmpty)
+          pure (splitName t sep)
       let cls ← optStr (← getObj? j "cls")
       let fuel ← getNat? j "fuel"
       guard (par.size == nm.size && nm.size == cf.size && cf.size == ats.size && o < par.size)
